@@ -1338,4 +1338,469 @@ Proof.
         apply (sp_level_same None its2 unch2 fb fc j Hs2F PB2 PC2 Nb Nc N2).
 Qed.
 
+(* ------------------------------------------------------------------------------------------- *)
+(* the fold over the source roots with three outcomes for a root that meets one: the two cancel, or the met root is
+   replaced in place by a merged one [Gd s t t2]; a root that meets none is added *)
+Section Fold3.
+Variable Cn : dd -> dd -> Prop.
+Variable Gd : dd -> dd -> dd -> Prop.
+
+Definition MixStep (s t : dd) : Prop :=
+  forall l1 l2, (forall x, In x l1 -> dd_id sch x <> dd_id sch t) ->
+  exists res sg, merge_r sch mdflt None s None (l1 ++ t :: l2) = Ok (res, sg) /\
+    ((res = l1 ++ l2 /\ Cn s t) \/ (exists t2, res = l1 ++ t2 :: l2 /\ dd_id sch t2 = dd_id sch t /\ Gd s t t2)).
+
+Lemma mix_fold3 : forall ss ts,
+  NoDup (map (dd_id sch) ss) -> NoDup (map (dd_id sch) ts) ->
+  (forall s, In s ss -> SrcOk s) ->
+  (forall s t, In s ss -> In t ts -> dd_id sch s = dd_id sch t -> MixStep s t) ->
+  exists ts', merge_roots sch mdflt ss ts = Ok ts' /\ NoDup (map (dd_id sch) ts') /\
+    (forall x, In x ts' ->
+       (In x ts /\ (forall s, In s ss -> dd_id sch s <> dd_id sch x)) \/
+       (exists s t, In s ss /\ In t ts /\ dd_id sch s = dd_id sch t /\ dd_id sch x = dd_id sch t /\ Gd s t x) \/
+       (exists s, In s ss /\ x = redup s /\ (forall t, In t ts -> dd_id sch t <> dd_id sch s))) /\
+    (forall t, In t ts -> (forall s, In s ss -> dd_id sch s <> dd_id sch t) -> In t ts') /\
+    (forall s, In s ss -> (forall t, In t ts -> dd_id sch t <> dd_id sch s) -> In (redup s) ts') /\
+    (forall s t, In s ss -> In t ts -> dd_id sch s = dd_id sch t ->
+                 Cn s t \/ exists x, In x ts' /\ dd_id sch x = dd_id sch t).
+Proof.
+  induction ss as [|s ss IH]; intros ts Ns Nt Hok Hun.
+  - exists ts. split; [reflexivity|]. split; [exact Nt|]. split; [|split; [|split]].
+    + intros x Hx. left. split; [exact Hx|intros s []].
+    + intros t Ht _. exact Ht.
+    + intros s [].
+    + intros s t [].
+  - cbn [map] in Ns. inversion Ns as [|? ? Hsnot Ns']; subst.
+    destruct (Hok s (or_introl eq_refl)) as [Huo [e [i [Hop [Hi Hred]]]]].
+    assert (He : eff_op None (dd_op s) = Some e) by (rewrite Hop; reflexivity).
+    cbn [merge_roots].
+    destruct (dd_match_idx sch ts (Some i)) as [k|] eqn:Ek.
+    + cbn [dd_match_idx] in Ek. destruct (find_idx_split _ _ _ Ek) as [l1 [t [l2 [-> [_ [Ht Hl1]]]]]].
+      apply dd_id_iff in Ht.
+      assert (Hl1' : forall x, In x l1 -> dd_id sch x <> dd_id sch t).
+      { intros x Hx E. rewrite Ht in E. apply (proj2 (dd_id_iff i x)) in E. rewrite (Hl1 x Hx) in E. discriminate. }
+      assert (Hint : In t (l1 ++ t :: l2)) by (apply in_or_app; right; left; reflexivity).
+      assert (Nt' : NoDup (map (dd_id sch) (l1 ++ l2))).
+      { rewrite map_app in *. cbn [map] in Nt. apply NoDup_remove_1 in Nt. exact Nt. }
+      assert (Htnot : forall x, In x (l1 ++ l2) -> dd_id sch x <> dd_id sch t).
+      { intros x Hx E'. rewrite map_app in Nt. cbn [map] in Nt. apply NoDup_remove_2 in Nt. apply Nt. rewrite <- map_app, <- E'.
+        apply in_map, Hx. }
+      assert (Hsub : forall x, In x (l1 ++ l2) -> In x (l1 ++ t :: l2)).
+      { intros x Hx. apply in_app_or in Hx. apply in_or_app. destruct Hx; [left|right; right]; assumption. }
+      assert (Hsst : forall s', In s' ss -> dd_id sch s' <> dd_id sch t).
+      { intros s' Hs' E'. apply Hsnot. rewrite Hi, <- Ht, <- E'. apply in_map, Hs'. }
+      destruct (Hun s t (or_introl eq_refl) Hint (eq_trans Hi (eq_sym Ht)) l1 l2 Hl1') as [res [sg [E [[-> HCn]|[t2 [-> [Eid2 HGd]]]]]]];
+        rewrite E.
+      * (* cancel *)
+        destruct (IH (l1 ++ l2) Ns' Nt') as [ts' [Em [Nd [R1 [R2 [R3 R4]]]]]].
+        -- intros s' Hs'. apply Hok. right. exact Hs'.
+        -- intros s' t' Hs' Ht' Eq. apply Hun; [right; exact Hs'|apply Hsub, Ht'|exact Eq].
+        -- exists ts'. split; [exact Em|]. split; [exact Nd|]. split; [|split; [|split]].
+           ++ intros x Hx. destruct (R1 x Hx) as [[Hx' Hss]|[[s' [t' [Hs' [Ht' [E1 [E2 G]]]]]]|[s' [Hs' [Ex Hts]]]]].
+              ** left. split; [apply Hsub, Hx'|]. intros s' [<-|Hs']; [|apply Hss, Hs'].
+                 rewrite Hi, <- Ht. intro Eq. apply (Htnot x Hx'). symmetry. exact Eq.
+              ** right. left. exists s', t'. repeat split; try assumption; [right; exact Hs'|apply Hsub, Ht'].
+              ** right. right. exists s'. split; [right; exact Hs'|]. split; [exact Ex|].
+                 intros t' Ht' Eq. apply in_app_or in Ht'. destruct Ht' as [Ht'|[<-|Ht']].
+                 --- apply (Hts t'); [apply in_or_app; left; exact Ht'|exact Eq].
+                 --- apply (Hsst s' Hs'). symmetry. exact Eq.
+                 --- apply (Hts t'); [apply in_or_app; right; exact Ht'|exact Eq].
+           ++ intros t' Ht' Hno. apply R2.
+              ** apply in_app_or in Ht'. destruct Ht' as [Ht'|[<-|Ht']]; [apply in_or_app; left; exact Ht'| |apply in_or_app; right; exact Ht'].
+                 exfalso. apply (Hno s (or_introl eq_refl)). rewrite Hi, Ht. reflexivity.
+              ** intros s' Hs'. apply Hno. right. exact Hs'.
+           ++ intros s' [<-|Hs'] Hno; [exfalso; apply (Hno t Hint); rewrite Ht, Hi; reflexivity|].
+              apply R3; [exact Hs'|]. intros t' Ht'. apply Hno, Hsub, Ht'.
+           ++ intros s' t' [<-|Hs'] Ht' Eq.
+              ** left. assert (t' = t).
+                 { apply (NoDup_map_in_eq (dd_id sch) (l1 ++ t :: l2)); [exact Nt|exact Ht'|exact Hint|]. rewrite <- Eq, Hi, Ht. reflexivity. }
+                 subst t'. exact HCn.
+              ** apply in_app_or in Ht'. destruct Ht' as [Ht'|[<-|Ht']].
+                 --- apply (R4 s' t' Hs'); [apply in_or_app; left; exact Ht'|exact Eq].
+                 --- exfalso. apply (Hsst s' Hs' Eq).
+                 --- apply (R4 s' t' Hs'); [apply in_or_app; right; exact Ht'|exact Eq].
+      * (* replaced in place *)
+        assert (Nt2 : NoDup (map (dd_id sch) (l1 ++ t2 :: l2))).
+        { rewrite map_app in *. cbn [map] in *. rewrite Eid2. exact Nt. }
+        assert (Hint2 : In t2 (l1 ++ t2 :: l2)) by (apply in_or_app; right; left; reflexivity).
+        destruct (IH (l1 ++ t2 :: l2) Ns' Nt2) as [ts' [Em [Nd [R1 [R2 [R3 R4]]]]]].
+        -- intros s' Hs'. apply Hok. right. exact Hs'.
+        -- intros s' t' Hs' Ht' Eq. apply in_app_or in Ht'. destruct Ht' as [Ht'|[<-|Ht']].
+           ++ apply Hun; [right; exact Hs'|apply in_or_app; left; exact Ht'|exact Eq].
+           ++ exfalso. apply (Hsst s' Hs'). rewrite Eq, Eid2. reflexivity.
+           ++ apply Hun; [right; exact Hs'|apply in_or_app; right; right; exact Ht'|exact Eq].
+        -- assert (Ht2in : In t2 ts').
+           { apply R2; [exact Hint2|]. intros s' Hs'. rewrite Eid2. apply Hsst, Hs'. }
+           exists ts'. split; [exact Em|]. split; [exact Nd|]. split; [|split; [|split]].
+           ++ intros x Hx. destruct (R1 x Hx) as [[Hx' Hss]|[[s' [t' [Hs' [Ht' [E1 [E2 G]]]]]]|[s' [Hs' [Ex Hts]]]]].
+              ** apply in_app_or in Hx'. destruct Hx' as [Hx'|[<-|Hx']].
+                 --- left. split; [apply in_or_app; left; exact Hx'|]. intros s' [<-|Hs']; [|apply Hss, Hs'].
+                     rewrite Hi, <- Ht. intro Eq. apply (Hl1' x Hx'). symmetry. exact Eq.
+                 --- right. left. exists s, t. split; [left; reflexivity|]. split; [exact Hint|]. split; [rewrite Hi, Ht; reflexivity|].
+                     split; [exact Eid2|exact HGd].
+                 --- left. split; [apply in_or_app; right; right; exact Hx'|]. intros s' [<-|Hs']; [|apply Hss, Hs'].
+                     rewrite Hi, <- Ht. intro Eq. apply (Htnot x (in_or_app _ _ _ (or_intror Hx'))). symmetry. exact Eq.
+              ** apply in_app_or in Ht'. destruct Ht' as [Ht'|[<-|Ht']].
+                 --- right. left. exists s', t'. repeat split; try assumption; [right; exact Hs'|apply in_or_app; left; exact Ht'].
+                 --- exfalso. apply (Hsst s' Hs'). rewrite E1, Eid2. reflexivity.
+                 --- right. left. exists s', t'. repeat split; try assumption; [right; exact Hs'|apply in_or_app; right; right; exact Ht'].
+              ** right. right. exists s'. split; [right; exact Hs'|]. split; [exact Ex|].
+                 intros t' Ht' Eq. apply in_app_or in Ht'. destruct Ht' as [Ht'|[<-|Ht']].
+                 --- apply (Hts t'); [apply in_or_app; left; exact Ht'|exact Eq].
+                 --- apply (Hsst s' Hs'). symmetry. exact Eq.
+                 --- apply (Hts t'); [apply in_or_app; right; right; exact Ht'|exact Eq].
+           ++ intros t' Ht' Hno. apply in_app_or in Ht'. destruct Ht' as [Ht'|[<-|Ht']].
+              ** apply R2; [apply in_or_app; left; exact Ht'|]. intros s' Hs'. apply Hno. right. exact Hs'.
+              ** exfalso. apply (Hno s (or_introl eq_refl)). rewrite Hi, Ht. reflexivity.
+              ** apply R2; [apply in_or_app; right; right; exact Ht'|]. intros s' Hs'. apply Hno. right. exact Hs'.
+           ++ intros s' [<-|Hs'] Hno; [exfalso; apply (Hno t Hint); rewrite Ht, Hi; reflexivity|].
+              apply R3; [exact Hs'|]. intros t' Ht'. apply in_app_or in Ht'. destruct Ht' as [Ht'|[<-|Ht']].
+              ** apply Hno. apply in_or_app. left. exact Ht'.
+              ** rewrite Eid2. intro Eq. apply (Hsst s' Hs'). symmetry. exact Eq.
+              ** apply Hno. apply in_or_app. right. right. exact Ht'.
+           ++ intros s' t' [<-|Hs'] Ht' Eq.
+              ** right. exists t2. split; [exact Ht2in|]. rewrite Eid2, <- Eq, Hi, Ht. reflexivity.
+              ** apply in_app_or in Ht'. destruct Ht' as [Ht'|[<-|Ht']].
+                 --- apply (R4 s' t' Hs'); [apply in_or_app; left; exact Ht'|exact Eq].
+                 --- exfalso. apply (Hsst s' Hs' Eq).
+                 --- apply (R4 s' t' Hs'); [apply in_or_app; right; right; exact Ht'|exact Eq].
+    + (* it meets none: it is added *)
+      assert (Habs : forall x, In x ts -> dd_id sch x <> Some i).
+      { intros x Hx E. cbn [dd_match_idx] in Ek. pose proof (find_idx_none _ _ Ek x Hx) as Hf. apply (proj2 (dd_id_iff i x)) in E. congruence. }
+      rewrite (merge_r_add None s None ts i e Huo He Hi Habs). cbn zeta.
+      assert (En : dd_set_op (redup s) (Some e) = redup s) by (rewrite <- Hop, <- dd_op_redup; apply dd_set_op_same).
+      rewrite En, Hred.
+      pose proof (dd_ins_last_perm ts (redup s)) as Pins.
+      assert (Nt' : NoDup (map (dd_id sch) (dd_ins_last ts (redup s)))).
+      { apply (Permutation_NoDup (Permutation_sym (Permutation_map _ Pins))). cbn [map].
+        constructor; [|exact Nt]. rewrite dd_id_redup, Hi. intro Hin. apply in_map_iff in Hin. destruct Hin as [x [Ex Hx]].
+        apply (Habs x Hx Ex). }
+      assert (Hrs : forall s', In s' ss -> dd_id sch s' <> dd_id sch (redup s)).
+      { intros s' Hs' Eq. apply Hsnot. rewrite dd_id_redup in Eq. rewrite <- Eq. apply in_map, Hs'. }
+      destruct (IH (dd_ins_last ts (redup s)) Ns' Nt') as [ts' [Em [Nd [R1 [R2 [R3 R4]]]]]].
+      * intros s' Hs'. apply Hok. right. exact Hs'.
+      * intros s' t' Hs' Ht' Eq. apply (Permutation_in _ Pins) in Ht'. destruct Ht' as [<-|Ht'].
+        -- exfalso. apply (Hrs s' Hs' Eq).
+        -- apply Hun; [right; exact Hs'|exact Ht'|exact Eq].
+      * exists ts'. split; [exact Em|]. split; [exact Nd|]. split; [|split; [|split]].
+        -- intros x Hx. destruct (R1 x Hx) as [[Hx' Hss]|[[s' [t' [Hs' [Ht' [E1 [E2 G]]]]]]|[s' [Hs' [Ex Hts]]]]].
+           ++ apply (Permutation_in _ Pins) in Hx'. destruct Hx' as [<-|Hx'].
+              ** right. right. exists s. split; [left; reflexivity|]. split; [reflexivity|]. intros t' Ht'. rewrite Hi. apply Habs, Ht'.
+              ** left. split; [exact Hx'|]. intros s' [<-|Hs']; [|apply Hss, Hs']. rewrite Hi. intro Eq. apply (Habs x Hx'). symmetry. exact Eq.
+           ++ apply (Permutation_in _ Pins) in Ht'. destruct Ht' as [<-|Ht'].
+              ** exfalso. apply (Hrs s' Hs' E1).
+              ** right. left. exists s', t'. repeat split; try assumption. right. exact Hs'.
+           ++ right. right. exists s'. split; [right; exact Hs'|]. split; [exact Ex|]. intros t' Ht'. apply Hts.
+              apply (Permutation_in _ (Permutation_sym Pins)). right. exact Ht'.
+        -- intros t' Ht' Hno. apply R2; [apply (Permutation_in _ (Permutation_sym Pins)); right; exact Ht'|].
+           intros s' Hs'. apply Hno. right. exact Hs'.
+        -- intros s' [<-|Hs'] Hno.
+           ++ apply R2; [apply (Permutation_in _ (Permutation_sym Pins)); left; reflexivity|exact Hrs].
+           ++ apply R3; [exact Hs'|]. intros t' Ht'. apply (Permutation_in _ Pins) in Ht'. destruct Ht' as [<-|Ht'].
+              ** intro Eq. apply (Hrs s' Hs'). symmetry. exact Eq.
+              ** apply Hno, Ht'.
+        -- intros s' t' [<-|Hs'] Ht' Eq; [exfalso; apply (Habs t' Ht'); rewrite <- Eq; exact Hi|].
+           apply (R4 s' t' Hs'); [apply (Permutation_in _ (Permutation_sym Pins)); right; exact Ht'|exact Eq].
+Qed.
+End Fold3.
+
+(* ------------------------------------------------------------------------------------------- *)
+(* leaf cells of the merge table in which the met root is replaced in place *)
+Definition CellOut (oa oc : option dnode) (s t : dd) : Prop :=
+  forall l1 l2, (forall x, In x l1 -> dd_id sch x <> dd_id sch t) ->
+  exists res sg, merge_r sch mdflt None s None (l1 ++ t :: l2) = Ok (res, sg) /\
+    ((res = l1 ++ l2 /\ oa = oc) \/ (exists t2, res = l1 ++ t2 :: l2 /\ dd_id sch t2 = dd_id sch t /\ Sp sch None t2 oa oc)).
+
+Lemma leaf_dd_id s v f o od ov ch v' f' o' od' ov' :
+  kind_of sch s = KLeaf -> dd_id sch (DD s v' f' o' od' ov' ch) = dd_id sch (DD s v f o od ov ch).
+Proof. intro Hk. unfold dd_id, inst_id. cbn [dd_node d_sid]. rewrite Hk. reflexivity. Qed.
+
+Lemma beq_bytes_sym_false x y : beq_bytes x y = false -> beq_bytes y x = false.
+Proof.
+  intro H. destruct (beq_bytes y x) eqn:E; [|reflexivity]. apply beq_bytes_eq in E. subst. rewrite beq_bytes_refl' in H. discriminate.
+Qed.
+
+(* replace, then replace again: to a third value (replace), back to the value with another flag (none), or back *)
+Lemma cell_replace_replace s t a b c :
+  userordered sch (dd_sid s) = false ->
+  Sp sch None t (Some a) (Some b) -> Sp sch None s (Some b) (Some c) ->
+  dd_op t = Some OpReplace -> dd_op s = Some OpReplace -> CellOut (Some a) (Some c) s t.
+Proof.
+  intros Huo Ht Hs Opt Ops l1 l2 Hl1.
+  destruct (sp_ids _ _ _ _ Ht) as [i [Tid0 [_ Tjb]]]. destruct (sp_ids _ _ _ _ Hs) as [i' [Sid0 [Sjb _]]].
+  assert (i' = i) by (pose proof (Tjb b eq_refl); pose proof (Sjb b eq_refl); congruence). subst i'.
+  destruct (sp_inv_ss _ _ _ _ Ht) as [[i1 T]|[[i1 T]|[i1 [chb T]]]];
+    [|destruct T as [Te _]; rewrite Opt in Te; discriminate|destruct T as [Te _]; rewrite Opt in Te; discriminate].
+  destruct (sp_inv_ss _ _ _ _ Hs) as [[i2 S]|[[i2 S]|[i2 [chc S]]]];
+    [|destruct S as [Se _]; rewrite Ops in Se; discriminate|destruct S as [Se _]; rewrite Ops in Se; discriminate].
+  destruct T as [Te [Tk [Tid [Ta [Tsid [Tne [Tov [Tod [Tch Tb]]]]]]]]].
+  destruct S as [Se [Sk [Sid [Sb [Ssid [Sne [Sov [Sod [Sch Sc]]]]]]]]].
+  assert (i1 = i) by congruence. subst i1. assert (i2 = i) by congruence. subst i2.
+  destruct t as [st vt ft opt odt ovt cht]. destruct s as [ss vs fs ops ods ovs chs].
+  cbn [dd_op dd_sid dd_val dd_dflt dd_oval dd_odflt dd_ch] in *. subst opt ops cht chs ovt odt ovs ods.
+  rewrite Tid in Hl1.
+  rewrite (merge_r_found None (DD ss vs fs (Some OpReplace) (Some (d_dflt b)) (Some (d_val b)) []) None l1
+                         (DD st vt ft (Some OpReplace) (Some (d_dflt a)) (Some (d_val a)) []) l2 i OpReplace OpReplace
+                         Huo eq_refl Sid Tid Hl1 eq_refl).
+  assert (Evb : d_val b = vt) by (rewrite Tb, d_val_set_dflt', d_val_set_val'; reflexivity).
+  rewrite Evb in Sne.
+  unfold merge_replace, dd_change_term, dd_merge_dflt_flag.
+  cbn [dd_sid dd_val dd_dflt dd_op dd_oval dd_odflt dd_ch dd_set_op dd_set_val dd_set_dflt dd_set_oval].
+  rewrite Tk, (beq_bytes_sym_false _ _ Sne).
+  assert (Ec : c = set_dflt (set_val a vs) fs) by (rewrite Sc, Tb; destruct a; reflexivity).
+  destruct (beq_bytes (d_val a) vs) eqn:Eac;
+    cbn [dd_sid dd_val dd_dflt dd_op dd_oval dd_odflt dd_ch dd_set_op dd_set_val dd_set_dflt dd_set_oval dd_set_ch merge_children];
+    unfold is_redundant, dd_is_term; cbn [dd_sid dd_odflt dd_dflt dd_op eff_op].
+  - (* back to the value *)
+    rewrite is_term_kind_of, Tk. cbn [is_term_kind]. apply beq_bytes_eq in Eac.
+    assert (Ec' : c = set_dflt a fs) by (rewrite Ec, <- Eac; destruct a; reflexivity).
+    destruct (Bool.eqb (d_dflt a) fs) eqn:Ef.
+    + eexists. eexists. split; [reflexivity|]. left. split; [reflexivity|]. apply Bool.eqb_prop in Ef. rewrite Ec', <- Ef. destruct a; reflexivity.
+    + eexists. eexists. split; [reflexivity|]. right. eexists. split; [reflexivity|]. split; [apply (leaf_dd_id st); exact Tk|].
+      rewrite Ec'. apply (Sp_none_term sch None (DD st vs fs (Some OpNone) (Some (d_dflt a)) None []) a i); cbn [dd_op dd_sid dd_dflt dd_odflt dd_ch]; try reflexivity.
+      * rewrite is_term_kind_of, Tk. reflexivity.
+      * rewrite <- Tid. apply (leaf_dd_id st). exact Tk.
+      * exact Ta.
+      * rewrite Tk. discriminate.
+      * intro E. rewrite E, Bool.eqb_reflx in Ef. discriminate.
+  - eexists. eexists. split; [reflexivity|]. right. eexists. split; [reflexivity|]. split; [apply (leaf_dd_id st); exact Tk|].
+    rewrite Ec. apply (Sp_replace sch None (DD st vs fs (Some OpReplace) (Some (d_dflt a)) (Some (d_val a)) []) a i); cbn [dd_op dd_sid dd_val dd_dflt dd_oval dd_odflt dd_ch]; try reflexivity.
+    + exact Tk.
+    + rewrite <- Tid. apply (leaf_dd_id st). exact Tk.
+    + exact Ta.
+    + exact Tsid.
+    + apply beq_bytes_sym_false. exact Eac.
+Qed.
+
+(* create, then replace: created with the new value *)
+Lemma cell_create_replace s t b c :
+  userordered sch (dd_sid s) = false -> wf_node sch c = true ->
+  Sp sch None t None (Some b) -> Sp sch None s (Some b) (Some c) ->
+  dd_op t = Some OpCreate -> dd_op s = Some OpReplace -> CellOut None (Some c) s t.
+Proof.
+  intros Huo Wc Ht Hs Opt Ops l1 l2 Hl1.
+  destruct (sp_ids _ _ _ _ Ht) as [i [Tid [_ Tjb]]]. destruct (sp_ids _ _ _ _ Hs) as [i' [Sid0 [Sjb Sjc]]].
+  assert (i' = i) by (pose proof (Tjb b eq_refl); pose proof (Sjb b eq_refl); congruence). subst i'.
+  destruct (sp_inv_ss _ _ _ _ Hs) as [[i2 S]|[[i2 S]|[i2 [chc S]]]];
+    [|destruct S as [Se _]; rewrite Ops in Se; discriminate|destruct S as [Se _]; rewrite Ops in Se; discriminate].
+  destruct S as [Se [Sk [Sid [Sb [Ssid [Sne [Sov [Sod [Sch Sc]]]]]]]]].
+  assert (i2 = i) by congruence. subst i2.
+  inversion Ht as [| inh0 d0 b0 i0 He Hb Hdd Hwf | | |]; subst.
+  destruct b as [sb vb db mb chb]. pose proof (wf_node_inv sch _ _ _ _ _ Hwf) as W.
+  pose proof (wn_meta _ _ _ _ _ _ W) as Em. pose proof (wn_kind _ _ _ _ _ _ W) as Wk. cbn [d_sid] in Ssid. subst sb.
+  rewrite Sk in Wk. destruct Wk as [Ech _]. subst mb chb.
+  rewrite Opt in Hdd. rewrite lift_unfold in Hdd. cbn [map forallb dd_set_op] in Hdd. rewrite Bool.andb_true_r in Hdd. subst t.
+  destruct s as [ss' vs fs ops ods ovs chs].
+  cbn [dd_op dd_sid dd_val dd_dflt dd_oval dd_odflt dd_ch d_val d_dflt d_sid] in *. subst ops chs ovs ods.
+  rewrite Tid in Hl1.
+  rewrite (merge_r_found None (DD ss' vs fs (Some OpReplace) (Some db) (Some vb) []) None l1
+                         (DD ss' vb db (Some OpCreate) None None []) l2 i OpReplace OpCreate
+                         Huo eq_refl Sid Tid Hl1 eq_refl).
+  unfold merge_replace, dd_change_term, dd_merge_dflt_flag.
+  cbn [dd_sid dd_val dd_dflt dd_op dd_oval dd_odflt dd_ch dd_set_op dd_set_val dd_set_dflt dd_set_oval].
+  rewrite Sk, (beq_bytes_sym_false _ _ Sne).
+  cbn [dd_sid dd_val dd_dflt dd_op dd_oval dd_odflt dd_ch dd_set_op dd_set_val dd_set_dflt dd_set_oval dd_set_ch merge_children].
+  unfold is_redundant. cbn [dd_op eff_op].
+  eexists. eexists. split; [reflexivity|]. right. eexists. split; [reflexivity|]. split; [apply (leaf_dd_id ss'); exact Sk|].
+  cbn [set_val set_dflt] in *.
+  apply (Sp_create sch None (DD ss' vs fs (Some OpCreate) None None []) (DN ss' vs fs [] []) i).
+  - reflexivity.
+  - apply Sjc. reflexivity.
+  - rewrite lift_unfold. cbn [map forallb dd_set_op dd_op]. rewrite Bool.andb_true_r. reflexivity.
+  - exact Wc.
+Qed.
+
+(* delete, then create again (without LYD_DIFF_MERGE_DEFAULTS): another value (replace), the value with another flag
+   (none), or the same leaf (nothing) *)
+Lemma cell_delete_create s t a c :
+  mdflt = false -> userordered sch (dd_sid s) = false -> kind_of sch (dd_sid s) = KLeaf ->
+  dd_id sch s = dd_id sch t ->
+  Sp sch None t (Some a) None -> Sp sch None s None (Some c) ->
+  dd_op t = Some OpDelete -> dd_op s = Some OpCreate -> CellOut (Some a) (Some c) s t.
+Proof.
+  intros Hmd Huo Hk Eid Ht Hs Opt Ops l1 l2 Hl1. revert Hmd.
+  inversion Ht as [inh0 d0 a0 i He Ha Hdd Hwa | | | |]; subst.
+  inversion Hs as [| inh0 d0 c0 i' He' Hc Hdd' Hwc | | |]; subst.
+  rewrite Opt in Hdd. rewrite Ops in Hdd'.
+  assert (Ei : i' = i).
+  { rewrite Hdd, Hdd', !dd_id_set_op in Eid. rewrite (dd_id_lift sch _ Hwc), (dd_id_lift sch _ Hwa) in Eid. congruence. }
+  subst i'.
+  assert (Eks : d_sid c = dd_sid s) by (rewrite Hdd', dd_sid_set_op, dd_sid_lift; reflexivity).
+  assert (Esid : d_sid a = d_sid c) by (rewrite <- (inst_id_sid sch _ _ Ha), <- (inst_id_sid sch _ _ Hc); reflexivity).
+  destruct a as [sa va da ma cha]. destruct c as [sc vc dc mc chc]. cbn [d_sid] in Esid, Eks. subst sa.
+  pose proof (wf_node_inv sch _ _ _ _ _ Hwa) as Wa. pose proof (wf_node_inv sch _ _ _ _ _ Hwc) as Wc.
+  pose proof (wn_meta _ _ _ _ _ _ Wa) as Ema. pose proof (wn_kind _ _ _ _ _ _ Wa) as Wka.
+  pose proof (wn_meta _ _ _ _ _ _ Wc) as Emc. pose proof (wn_kind _ _ _ _ _ _ Wc) as Wkc.
+  rewrite Eks, Hk in Wka, Wkc. destruct Wka as [Echa _]. destruct Wkc as [Echc _]. subst ma mc cha chc.
+  rewrite lift_unfold in Hdd, Hdd'. cbn [map forallb dd_set_op] in Hdd, Hdd'. rewrite Bool.andb_true_r in Hdd, Hdd'.
+  subst s t. cbn [dd_sid] in *. clear Eks.
+  assert (Tid : dd_id sch (DD (dd_sid (DD sc vc dc (Some OpCreate) None None [])) va da (Some OpDelete) None None []) = Some i).
+  { cbn [dd_sid]. rewrite <- Eid. rewrite <- Hc. unfold dd_id. cbn [dd_node map]. reflexivity. }
+  cbn [dd_sid] in Tid.
+  assert (Sid : dd_id sch (DD sc vc dc (Some OpCreate) None None []) = Some i) by (rewrite Eid; exact Tid).
+  rewrite Tid in Hl1.
+  rewrite (merge_r_found None (DD sc vc dc (Some OpCreate) None None []) None l1
+                         (DD sc va da (Some OpDelete) None None []) l2 i OpCreate OpDelete
+                         Huo eq_refl Sid Tid Hl1 eq_refl).
+  intro Hmd. unfold merge_create, dd_change_term. rewrite Hmd.
+  cbn [dd_sid dd_val dd_dflt dd_op dd_oval dd_odflt dd_ch dd_set_op dd_set_val dd_set_dflt dd_set_oval andb].
+  rewrite Hk.
+  destruct (beq_bytes va vc) eqn:Eac;
+    unfold dd_is_term;
+    cbn [dd_sid dd_val dd_dflt dd_op dd_oval dd_odflt dd_ch dd_set_op dd_set_val dd_set_dflt dd_set_oval dd_set_odflt dd_set_ch
+         set_ops_nokeys merge_children];
+    rewrite is_term_kind_of, Hk; cbn [is_term_kind];
+    cbn [dd_sid dd_val dd_dflt dd_op dd_oval dd_odflt dd_ch dd_set_op dd_set_val dd_set_dflt dd_set_oval dd_set_odflt dd_set_ch
+         set_ops_nokeys merge_children];
+    unfold is_redundant, dd_is_term; cbn [dd_sid dd_odflt dd_dflt dd_op eff_op].
+  - rewrite is_term_kind_of, Hk. cbn [is_term_kind]. apply beq_bytes_eq in Eac. subst vc.
+    destruct (Bool.eqb da dc) eqn:Ef.
+    + eexists. eexists. split; [reflexivity|]. left. split; [reflexivity|]. apply Bool.eqb_prop in Ef. subst dc. reflexivity.
+    + eexists. eexists. split; [reflexivity|]. right. eexists. split; [reflexivity|]. split; [apply (leaf_dd_id sc); exact Hk|].
+      apply (Sp_none_term sch None (DD sc va dc (Some OpNone) (Some da) None []) (DN sc va da [] []) i);
+        cbn [dd_op dd_sid dd_dflt dd_odflt dd_ch d_dflt]; try reflexivity.
+      * rewrite is_term_kind_of, Hk. reflexivity.
+      * rewrite <- Tid. apply (leaf_dd_id sc). exact Hk.
+      * exact Ha.
+      * rewrite Hk. discriminate.
+      * intro E. rewrite E, Bool.eqb_reflx in Ef. discriminate.
+  - eexists. eexists. split; [reflexivity|]. right. eexists. split; [reflexivity|]. split; [apply (leaf_dd_id sc); exact Hk|].
+    apply (Sp_replace sch None (DD sc vc dc (Some OpReplace) (Some da) (Some va) []) (DN sc va da [] []) i);
+      cbn [dd_op dd_sid dd_val dd_dflt dd_oval dd_odflt dd_ch d_val d_dflt d_sid]; try reflexivity.
+    + exact Hk.
+    + rewrite <- Tid. apply (leaf_dd_id sc). exact Hk.
+    + exact Ha.
+    + apply beq_bytes_sym_false. exact Eac.
+Qed.
+
+Lemma sp_op_replace d oa ob : Sp sch None d oa ob -> dd_op d = Some OpReplace -> exists a b, oa = Some a /\ ob = Some b.
+Proof. intros H Ho. destruct H as [? ? ? ? He|? ? ? ? He|? ? ? ? He|? ? ? ? He|? ? ? ? ? He]; rewrite Ho in He; try discriminate. eauto. Qed.
+Lemma sp_op_create d oa ob : Sp sch None d oa ob -> dd_op d = Some OpCreate -> oa = None /\ exists b, ob = Some b.
+Proof. intros H Ho. destruct H as [? ? ? ? He|? ? ? ? He|? ? ? ? He|? ? ? ? He|? ? ? ? ? He]; rewrite Ho in He; try discriminate. eauto. Qed.
+Lemma sp_op_delete d oa ob : Sp sch None d oa ob -> dd_op d = Some OpDelete -> ob = None /\ exists a, oa = Some a.
+Proof. intros H Ho. destruct H as [? ? ? ? He|? ? ? ? He|? ? ? ? He|? ? ? ? He|? ? ? ? ? He]; rewrite Ho in He; try discriminate. eauto. Qed.
+
+(* the leaf cells in which a met root is replaced in place *)
+Definition leaf_cell (s t : dd) : Prop :=
+  kind_of sch (dd_sid s) = KLeaf /\
+  ((dd_op t = Some OpReplace /\ dd_op s = Some OpReplace) \/ (dd_op t = Some OpCreate /\ dd_op s = Some OpReplace) \/
+   (dd_op t = Some OpDelete /\ dd_op s = Some OpCreate)).
+
+(* C13, composition: every root of diff(B,C) meets no root of diff(A,B), or undoes the one it meets, or the two are
+   operations on a leaf in one of the cells replace + replace, create + replace, delete + create *)
+Theorem merge_apply_cells fa fb fc d1 d2 :
+  mdflt = false ->
+  wfb sch fa = true -> wfb sch fb = true -> wfb sch fc = true ->
+  diff sch true fa fb = Ok d1 -> diff sch true fb fc = Ok d2 ->
+  (forall s t j, In s d2 -> In t d1 -> dd_id sch s = Some j -> dd_id sch t = Some j ->
+                 find_match sch true fc (Some j) = find_match sch true fa (Some j) \/ leaf_cell s t) ->
+  exists m, merge sch mdflt (map redup d1) d2 = Ok m /\ apply sch m fa = Ok fc.
+Proof.
+  intros Hmd Ha Hb Hc E1 E2 Hmeet.
+  destruct (diff_sp sch fa fb Ha Hb) as [d1' [E1' Hsp1]]. assert (d1' = d1) by congruence. subst d1'.
+  destruct (diff_sp sch fb fc Hb Hc) as [d2' [E2' Hsp2]]. assert (d2' = d2) by congruence. subst d2'.
+  assert (Hsp1' : LevelSp sch (Sp sch None) (map redup d1) fa fb).
+  { apply (levelsp_map sch (Sp sch None) (Sp sch None) redup); [apply dd_id_redup| |exact Hsp1].
+    intros d oa ob _ H. apply redup_sp. exact H. }
+  destruct Hsp1' as [its1 [unch1 [Eds1 [Hs1 [Hnd1 [PA1 PB1]]]]]].
+  destruct Hsp2 as [its2 [unch2 [Eds2 [Hs2 [Hnd2 [PB2 PC2]]]]]].
+  pose proof (wfb_sibs sch _ Ha) as Wa. pose proof (wfb_sibs sch _ Hb) as Wb. pose proof (wfb_sibs sch _ Hc) as Wc.
+  pose proof (so_nodup _ _ (ws_sibs _ _ Wa)) as Na. pose proof (so_nodup _ _ (ws_sibs _ _ Wb)) as Nb.
+  pose proof (so_nodup _ _ (ws_sibs _ _ Wc)) as Nc.
+  assert (LS1 : forall it j, In it its1 -> dd_id sch (it_d it) = Some j ->
+             it_a it = find_match sch true fa (Some j) /\ it_b it = find_match sch true fb (Some j)).
+  { intros it j Hit Hj. apply (level_lookup None its1 unch1 fa fb it j); assumption. }
+  assert (LS2 : forall it j, In it its2 -> dd_id sch (it_d it) = Some j ->
+             it_a it = find_match sch true fb (Some j) /\ it_b it = find_match sch true fc (Some j)).
+  { intros it j Hit Hj. apply (level_lookup None its2 unch2 fb fc it j); assumption. }
+  pose proof Hs1 as Hs1F. pose proof Hs2 as Hs2F. rewrite Forall_forall in Hs1, Hs2.
+  assert (Hin1 : forall it1, In it1 its1 -> exists t, In t d1 /\ dd_id sch t = dd_id sch (it_d it1) /\ dd_op t = dd_op (it_d it1)).
+  { intros it1 H1. assert (Hin : In (it_d it1) (map redup d1)) by (rewrite Eds1; apply in_map; exact H1).
+    apply in_map_iff in Hin. destruct Hin as [t [Et Ht]]. exists t. split; [exact Ht|]. rewrite <- Et, dd_id_redup, dd_op_redup. split; reflexivity. }
+  set (Cn := fun (_ t : dd) => exists j, dd_id sch t = Some j /\ find_match sch true fa (Some j) = find_match sch true fc (Some j)).
+  set (Gd := fun (_ t t2 : dd) => exists j, dd_id sch t = Some j /\
+                                  Sp sch None t2 (find_match sch true fa (Some j)) (find_match sch true fc (Some j))).
+  destruct (mix_fold3 Cn Gd (map it_d its2) (map it_d its1)) as [m [Em [Ndm [R1 [R2 [R3 R4]]]]]].
+  - rewrite map_map. exact Hnd2.
+  - rewrite map_map. exact Hnd1.
+  - intros s Hs. apply in_map_iff in Hs. destruct Hs as [it [<- Hit]].
+    destruct (sp_ids _ _ _ _ (Hs2 it Hit)) as [j [Hj _]]. destruct (LS2 it j Hit Hj) as [La Lb].
+    destruct (sp_eff _ _ _ _ (Hs2 it Hit)) as [e He].
+    assert (Hop : dd_op (it_d it) = Some e) by (destruct (dd_op (it_d it)); cbn in He; congruence).
+    split.
+    + apply (sp_sid_nouo _ _ _ _ (Hs2 it Hit)); [rewrite La|rewrite Lb]; apply find_match_owf, wfb_forall; assumption.
+    + exists e, j. split; [exact Hop|]. split; [exact Hj|].
+      pose proof (sp_not_redundant None _ _ _ e (Hs2 it Hit) He) as Hr.
+      assert (En : dd_set_op (redup (it_d it)) (Some e) = redup (it_d it)) by (rewrite <- Hop, <- dd_op_redup; apply dd_set_op_same).
+      rewrite En in Hr. exact Hr.
+  - (* the roots that meet *)
+    intros s t Hs Ht Eid. apply in_map_iff in Hs. destruct Hs as [it2 [<- H2]]. apply in_map_iff in Ht. destruct Ht as [it1 [<- H1]].
+    destruct (sp_ids _ _ _ _ (Hs2 it2 H2)) as [j [Hj _]]. assert (Hj1 : dd_id sch (it_d it1) = Some j) by congruence.
+    destruct (LS2 it2 j H2 Hj) as [La2 Lb2]. destruct (LS1 it1 j H1 Hj1) as [La1 Lb1].
+    destruct (Hin1 it1 H1) as [t [Ht [Et Eop]]].
+    pose proof (Hs2 it2 H2) as Sp2. pose proof (Hs1 it1 H1) as Sp1. rewrite La2, Lb2 in Sp2. rewrite La1, Lb1 in Sp1.
+    assert (Huo : userordered sch (dd_sid (it_d it2)) = false).
+    { apply (sp_sid_nouo _ _ _ _ Sp2); apply find_match_owf, wfb_forall; assumption. }
+    assert (Hcell : CellOut (find_match sch true fa (Some j)) (find_match sch true fc (Some j)) (it_d it2) (it_d it1) ->
+                    MixStep Cn Gd (it_d it2) (it_d it1)).
+    { intros HC l1 l2 Hl1. destruct (HC l1 l2 Hl1) as [res [sg [E Hout]]]. exists res, sg. split; [exact E|].
+      destruct Hout as [[Er Eq]|[t2 [Er [Eid2 Hsp]]]].
+      - left. split; [exact Er|]. exists j. split; [exact Hj1|exact Eq].
+      - right. exists t2. split; [exact Er|]. split; [exact Eid2|]. exists j. split; [exact Hj1|exact Hsp]. }
+    destruct (Hmeet (it_d it2) t j) as [Efc|[Hk Hcells]]; [rewrite Eds2; apply in_map; exact H2|exact Ht|exact Hj|congruence| |].
+    + (* they cancel *)
+      intros l1 l2 Hl1.
+      destruct (undo_node (it_d it2) None None (it_d it1) (find_match sch true fa (Some j)) (find_match sch true fb (Some j))) with (l1 := l1) (l2 := l2)
+        as [sg E].
+      * apply find_match_owf, wfb_forall, Ha.
+      * apply find_match_owf, wfb_forall, Hb.
+      * rewrite <- Efc. exact Sp2.
+      * exact Sp1.
+      * exact Hl1.
+      * exists (l1 ++ l2), sg. split; [exact E|]. left. split; [reflexivity|]. exists j. split; [exact Hj1|symmetry; exact Efc].
+    + apply Hcell. rewrite Eop in Hcells. destruct Hcells as [[Ot Os]|[[Ot Os]|[Ot Os]]].
+      * destruct (sp_op_replace _ _ _ Sp1 Ot) as [a [b [Ea Eb]]]. destruct (sp_op_replace _ _ _ Sp2 Os) as [b' [c [Eb' Ec]]].
+        rewrite Ea, Ec. rewrite Ea, Eb in Sp1. rewrite Eb, Ec in Sp2. apply (cell_replace_replace _ _ a b c); assumption.
+      * destruct (sp_op_create _ _ _ Sp1 Ot) as [Ea [b Eb]]. destruct (sp_op_replace _ _ _ Sp2 Os) as [b' [c [Eb' Ec]]].
+        rewrite Ea, Ec. rewrite Ea, Eb in Sp1. rewrite Eb, Ec in Sp2. apply (cell_create_replace _ _ b c); try assumption.
+        apply (wfb_forall _ Hc). apply (find_match_true_inv sch fc j c Ec).
+      * destruct (sp_op_delete _ _ _ Sp1 Ot) as [Eb [a Ea]]. destruct (sp_op_create _ _ _ Sp2 Os) as [Eb' [c Ec]].
+        rewrite Ea, Ec. rewrite Ea, Eb in Sp1. rewrite Eb, Ec in Sp2. apply (cell_delete_create _ _ a c); assumption.
+  - exists m. split; [unfold merge; rewrite Eds1, Eds2; exact Em|].
+    apply (apply_level_sp sch m fa fc); [|apply (ws_sibs _ _ Wa)|apply wf_allsome, (ws_nodes _ _ Wa)|apply (ws_sibs _ _ Wc)].
+    apply level_build; try assumption; try (apply wf_allsome; apply ws_nodes; assumption).
+    + intros x Hx. destruct (R1 x Hx) as [[Hx' Hss]|[[s [t [Hs [Ht [E12 [Ext [j [Hj HG]]]]]]]]|[s [Hs [-> Hts]]]]].
+      * apply in_map_iff in Hx'. destruct Hx' as [it1 [<- H1]].
+        destruct (sp_ids _ _ _ _ (Hs1 it1 H1)) as [j [Hj _]]. destruct (LS1 it1 j H1 Hj) as [La Lb]. exists j. split; [exact Hj|].
+        rewrite <- (sp_level_same None its2 unch2 fb fc j Hs2F PB2 PC2 Nb Nc).
+        -- rewrite <- La, <- Lb. apply Hs1, H1.
+        -- intros it2 H2 E. apply (Hss (it_d it2)); [apply in_map; exact H2|congruence].
+      * exists j. split; [congruence|exact HG].
+      * apply in_map_iff in Hs. destruct Hs as [it2 [<- H2]].
+        destruct (sp_ids _ _ _ _ (Hs2 it2 H2)) as [j [Hj _]]. destruct (LS2 it2 j H2 Hj) as [La Lb]. exists j.
+        split; [rewrite dd_id_redup; exact Hj|].
+        rewrite (sp_level_same None its1 unch1 fa fb j Hs1F PA1 PB1 Na Nb).
+        -- rewrite <- La, <- Lb. apply redup_sp, Hs2, H2.
+        -- intros it1 H1 E. apply (Hts (it_d it1)); [apply in_map; exact H1|congruence].
+    + intros j Hno.
+      destruct (in_ds j (map it_d its1)) eqn:D1; destruct (in_ds j (map it_d its2)) eqn:D2.
+      * apply in_ds_true in D1. destruct D1 as [t1 [Ht1 Hj1]]. apply in_ds_true in D2. destruct D2 as [s2 [Hs2' Hj2]].
+        destruct (R4 s2 t1 Hs2' Ht1) as [[j' [Hj' Eq]]|[x [Hx Ex]]]; [congruence| |].
+        -- assert (j' = j) by congruence. subst j'. exact Eq.
+        -- exfalso. apply (Hno x Hx). congruence.
+      * exfalso. apply in_ds_true in D1. destruct D1 as [t1 [Ht1 Hj1]]. apply (Hno t1); [|exact Hj1]. apply R2; [exact Ht1|].
+        intros s Hs E. assert (Ht : in_ds j (map it_d its2) = true) by (apply in_ds_true; exists s; split; [exact Hs|congruence]).
+        congruence.
+      * exfalso. apply in_ds_true in D2. destruct D2 as [s2 [Hs2' Hj2]]. apply (Hno (redup s2)); [|rewrite dd_id_redup; exact Hj2].
+        apply R3; [exact Hs2'|].
+        intros t Ht E. assert (Htt : in_ds j (map it_d its1) = true) by (apply in_ds_true; exists t; split; [exact Ht|congruence]).
+        congruence.
+      * assert (N1 : forall it, In it its1 -> dd_id sch (it_d it) <> Some j).
+        { intros it Hit E. assert (Ht : in_ds j (map it_d its1) = true) by (apply in_ds_true; exists (it_d it); split; [apply in_map; exact Hit|exact E]). congruence. }
+        assert (N2 : forall it, In it its2 -> dd_id sch (it_d it) <> Some j).
+        { intros it Hit E. assert (Ht : in_ds j (map it_d its2) = true) by (apply in_ds_true; exists (it_d it); split; [apply in_map; exact Hit|exact E]). congruence. }
+        rewrite (sp_level_same None its1 unch1 fa fb j Hs1F PA1 PB1 Na Nb N1).
+        apply (sp_level_same None its2 unch2 fb fc j Hs2F PB2 PC2 Nb Nc N2).
+Qed.
+
 End WithSchema.
